@@ -122,10 +122,98 @@ func (E *Engine) addrTaken() map[*ssa.Function]bool {
 	return addrTakenCache
 }
 
+// candidateTypes lists the repo types a dynamic interface value may have, refined along its def-use chain
+// (type assertions narrow the set; loads from local cells follow their stores).
+func (E *Engine) candidateTypes(v ssa.Value, depth int) []types.Type {
+	all := func(T types.Type) []types.Type {
+		iface, _ := under(T).(*types.Interface)
+		if iface == nil {
+			return []types.Type{T}
+		}
+		var out []types.Type
+		for _, sp := range E.P.SPkgs {
+			if sp == nil || !strings.HasPrefix(sp.Pkg.Path(), ModPath) {
+				continue
+			}
+			for _, m := range sp.Members {
+				t, ok := m.(*ssa.Type)
+				if !ok {
+					continue
+				}
+				for _, C := range []types.Type{t.Type(), types.NewPointer(t.Type())} {
+					if !types.IsInterface(C) && types.Implements(C, iface) {
+						out = append(out, C)
+					}
+				}
+			}
+		}
+		return out
+	}
+	if depth > 6 {
+		return all(v.Type())
+	}
+	filter := func(cs []types.Type, T types.Type) []types.Type {
+		iface, _ := under(T).(*types.Interface)
+		if iface == nil {
+			return cs
+		}
+		var out []types.Type
+		for _, c := range cs {
+			if types.Implements(c, iface) {
+				out = append(out, c)
+			}
+		}
+		return out
+	}
+	switch x := v.(type) {
+	case *ssa.MakeInterface:
+		return []types.Type{x.X.Type()}
+	case *ssa.ChangeInterface:
+		return filter(E.candidateTypes(x.X, depth+1), x.Type())
+	case *ssa.TypeAssert:
+		return filter(E.candidateTypes(x.X, depth+1), x.AssertedType)
+	case *ssa.Extract:
+		if ta, ok := x.Tuple.(*ssa.TypeAssert); ok && x.Index == 0 {
+			return E.candidateTypes(ta, depth+1)
+		}
+	case *ssa.UnOp:
+		if a, ok := x.X.(*ssa.Alloc); ok && isCell(a) {
+			var out []types.Type
+			seen := map[string]bool{}
+			n := 0
+			for _, r := range *a.Referrers() {
+				if st, ok := r.(*ssa.Store); ok && st.Addr == a {
+					n++
+					for _, c := range E.candidateTypes(st.Val, depth+1) {
+						if k := typeKey(c); !seen[k] {
+							seen[k] = true
+							out = append(out, c)
+						}
+					}
+				}
+			}
+			if n > 0 {
+				return filter(out, v.Type())
+			}
+		}
+	}
+	return all(v.Type())
+}
+
 // callTargets resolves a call to the repo functions it may reach; external=true if it may leave the repo.
 func (E *Engine) callTargets(c *ssa.CallCommon) (targets []*ssa.Function, external *ssa.Function, dynamic bool) {
 	if c.IsInvoke() {
-		return E.implementers(c.Value.Type(), c.Method), nil, true
+		var out []*ssa.Function
+		for _, T := range E.candidateTypes(c.Value, 0) {
+			sel := E.P.SSA.MethodSets.MethodSet(T).Lookup(c.Method.Pkg(), c.Method.Name())
+			if sel == nil {
+				continue
+			}
+			if f := E.P.SSA.MethodValue(sel); f != nil {
+				out = append(out, f)
+			}
+		}
+		return out, nil, true
 	}
 	switch v := c.Value.(type) {
 	case *ssa.Function:
